@@ -77,6 +77,9 @@ csi_case!(csi_k6_s27, 6, 27); // 38:5:n;48:5:n
 csi_case!(csi_k6_s1, 6, 1); // 4:n;38;2;r... (incomplete) / 4:n;c;c;c;c
 csi_case!(csi_k7_s0, 7, 0); // c;38;2;r;g;b;c
 csi_case!(csi_k8_s0, 8, 0); // 38;5;n;48;2;r;g;b
+csi_case!(csi_k10_s0, 10, 0); // 38;2;r;g;b;48;2;r;g;b
+csi_case!(csi_k10_s495, 10, 495); // 38:2:r:g:b;48:2:r:g:b
+csi_case!(csi_k11_s0, 11, 0); // 38;2;r;g;b;58;2;r;g;b;c
 
 /// Attributes combined in one sequence == the same attributes in separate sequences.
 #[kani::proof]
